@@ -152,6 +152,68 @@ func c37(c *Ctx) {
 			return false
 		}(), fallDel, pf, "falls-back-to-start-entry", "the fall-back does not use the start entry")
 	})
+	c.Ob("hash-source", "R8", "the walk starts at ring.pick(hash) where hash is the xDS request hash (no header configured), xxhash of the comma-joined header values (header present), or a random number (header configured but absent); the random-hash walk is used exactly in the last case", 6, func() {
+		pk := one(c, "ring.pick call", callsIn(pf, Callee(rhp, "ring.pick")))
+		hp, ok := pk.Common().Args[1].(*ssa.Phi)
+		if !c.Expect(ok, pk, pf, "hash-chosen-by-source", "the request hash is not chosen among the three documented sources") {
+			return
+		}
+		fHdr := c.field(rhp, "picker", "requestHashHeader")
+		noHdr := Cmp(FieldLoad(fHdr), token.EQL, ConstStr(""))
+		var randPred *ssa.BasicBlock
+		seen := map[string]int{}
+		for i, e := range hp.Edges {
+			pred := hp.Block().Preds[i]
+			for _, fs := range incomingFacts(pred, hp.Block()) {
+				switch {
+				case ExtractOf(CallRes(Callee("internal/ringhash", "XDSRequestHash"), -1), 0)(e) || func() bool {
+					ex, ok := e.(*ssa.Extract)
+					if !ok || ex.Index != 0 {
+						return false
+					}
+					call, ok := ex.Tuple.(*ssa.Call)
+					return ok && Callee("internal/ringhash", "XDSRequestHash")(&call.Call)
+				}():
+					seen["xds"]++
+					_, a := hasFact(fs, noHdr)
+					c.Expect(a, pk, pf, "xds-hash-only-without-header-config", "the xDS request hash is used although a request-hash header is configured")
+				case CallRes(FieldCall(c.field(rhp, "picker", "randUint64")), 0)(e):
+					seen["random"]++
+					randPred = pred
+					_, a := hasFact(fs, noHdr)
+					c.Expect(!a, pk, pf, "random-hash-only-with-header-config", "a random hash is used without a configured header")
+				case CallRes(CalleeX("github.com/cespare/xxhash/v2", "Sum64String"), 0)(e):
+					seen["header"]++
+					call := e.(*ssa.Call)
+					j, isJ := call.Call.Args[0].(*ssa.Call)
+					c.Expect(isJ && CalleeX("strings", "Join")(&j.Call) && ConstStr(",")(j.Call.Args[1]) && CallWith(Callee("metadata", "MD.Get"), 1, FieldLoad(fHdr))(j.Call.Args[0]), pk, pf, "header-hash-of-comma-joined-values", "the header hash is not xxhash of the comma-joined values of the configured header")
+					_, a := hasFact(fs, CmpInt(LenOf(CallWith(Callee("metadata", "MD.Get"), 1, FieldLoad(fHdr))), token.NEQ, 0))
+					c.Expect(a, pk, pf, "header-hash-only-when-present", "the header hash is used although the header has no values")
+				default:
+					c.Expect(false, pk, pf, "hash-source-known", "the request hash has an unreviewed source")
+				}
+			}
+		}
+		c.Expect(seen["xds"] == 1 && seen["random"] >= 1 && seen["header"] == 1, pk, pf, "three-hash-sources", "expected the three documented hash sources")
+		// the flag: true exactly where the random hash is taken
+		var flag *ssa.Phi
+		for _, in := range hp.Block().Instrs {
+			if ph, ok := in.(*ssa.Phi); ok && ph != hp && AnyBoolPhi(ph) {
+				flag = ph
+			}
+		}
+		if c.Expect(flag != nil, pk, pf, "random-flag", "no flag distinguishes the random-hash case") {
+			for i, e := range flag.Edges {
+				isRand := hp.Block().Preds[i] == randPred
+				c.Expect(ConstBool(isRand)(e), pk, pf, "flag-true-exactly-for-random-hash", "the random-hash flag does not coincide with the random hash source")
+			}
+			isFlag := func(v ssa.Value) bool { return v == ssa.Value(flag) }
+			if hashDel != nil && randDel != nil {
+				c.MustFact(hashDel, "affinity-walk-only-with-a-request-hash", Truth(isFlag, false))
+				c.MustFact(randDel, "first-ready-walk-only-with-a-random-hash", Truth(isFlag, true))
+			}
+		}
+	})
 	c.Ob("random-hash-arm", "R2", "random-hash walk: delegate only on READY; exitIdle only for IDLE with no connection requested yet, the flag starts as hasEndpointInConnectingState and is set on the exitIdle arm; ErrNoSubConnAvailable when a connection was requested", 7, func() {
 		if randDel == nil {
 			c.Expect(false, nil, pf, "random-walk-found", "random-hash walk not found")
